@@ -146,12 +146,17 @@ def main():
         st = subprocess.run("git -C /repo status --porcelain", shell=True, capture_output=True, text=True).stdout
         assert st.strip() == "", "/repo dirty"
         subprocess.run("git -C /repo apply %s" % patch, shell=True, check=True)
+        ev = "/verif/evidence/%s.json" % pid
+        evsave = open(ev).read() if os.path.exists(ev) else None
         try:
             p = subprocess.run("/verif/check %s %s" % (pid, tier), shell=True, capture_output=True, text=True, timeout=3600, cwd="/verif")
             lines = [l for l in p.stdout.splitlines() if l.startswith(("VIOLATION", "INCONCLUSIVE", "KNOWN-FINDING"))]
             res["check"] = {"cmd": "./check %s %s" % (pid, tier), "exit": p.returncode, "lines": [l[:300] for l in lines[:8]]}
         finally:
             subprocess.run("git -C /repo checkout -- . && git -C /repo clean -fdq", shell=True)
+            # the evidence file must describe the unchanged tree: put the committed one back
+            if evsave is not None:
+                open(ev, "w").write(evsave)
     dst = os.path.join("/verif/seeded", name)
     os.makedirs(dst, exist_ok=True)
     shutil.copy(patch, os.path.join(dst, "patch.diff"))
